@@ -658,6 +658,26 @@ func runC16(w *core.WorkerCtx, idx int) *core.CaseResult {
 			witness("external labels", t2)
 		}
 	}
+	// same content loaded from a FILE (as the coordinator does) and from raw bytes (as a sidecar gets it)
+	if idx%2 == 0 {
+		d := filepath.Join(w.Scratch, fmt.Sprintf("c16-file-%d", idx), "etc", "prometheus")
+		_ = os.MkdirAll(d, 0755)
+		f := filepath.Join(d, "prometheus.yml")
+		if err := os.WriteFile(f, []byte(base), 0644); err == nil {
+			m := prom.NewConfigManager()
+			if err := m.ReloadFromFile(f); err != nil {
+				res.Violate("C16/file-load-fails", "the configuration loads from raw bytes but not from a file: %v", err)
+			} else {
+				res.Execs++
+				res.AddStat("file_vs_raw_hashes", 1)
+				if hf := m.ConfigInfo().ConfigHash; hf != h0 {
+					res.Violate("C16/hash-depends-on-load-path", "the same bytes hash to %s when loaded from %s and to %s when pushed as raw content", hf, f, h0)
+					witness("file vs raw", base)
+				}
+			}
+		}
+		os.RemoveAll(filepath.Join(w.Scratch, fmt.Sprintf("c16-file-%d", idx)))
+	}
 	// same content, other processes and a sidecar
 	if idx%8 == 0 {
 		for k := 0; k < 3; k++ {
@@ -721,7 +741,7 @@ func init() {
 		ID:    "C16",
 		Level: "exploration",
 		Rule: "case = one generated configuration (1-4 jobs with scheme/path/params/intervals/honor flags/limits/relabel and metric-relabel programs/auth kinds/SD kinds, global section, rule files, alerting, remote write/read with secrets) hashed by the real prom.ConfigManager; " +
-			"for it every applicable entry of a catalogue of ~150 single-setting edits (each scalar, list entry added/removed, regex of scrape/metric/alert/write relabel rules, secrets, usernames, SD options, remote URLs) must change the hash; 7 re-renderings (indentation, quoting style, comments, key order, flow lists) and 3 external-label changes must not; every 8th case also hashes the same text in 3 fresh processes and through a sidecar's /runtimeinfo/; " +
+			"for it every applicable entry of a catalogue of ~150 single-setting edits (each scalar, list entry added/removed, regex of scrape/metric/alert/write relabel rules, secrets, usernames, SD options, remote URLs) must change the hash; 7 re-renderings (indentation, quoting style, comments, key order, flow lists) and 3 external-label changes must not; every second case also loads the same bytes from a file in a nested directory (as the coordinator does; the generator emits relative rule-file and file-discovery paths) and compares with the raw-content hash (as a sidecar computes it); every 8th case also hashes the same text in 3 fresh processes and through a sidecar's /runtimeinfo/; " +
 			"non-trivial = every case whose base configuration loads; distinct = hash of the base text",
 		Assumptions: []string{
 			"pure re-ordering of lists is not asserted either way",
